@@ -94,6 +94,31 @@ def gen_C03(tier, seed):
         p.write(1, route='none' if route == 'inline' else route, data_arrays=arrs, fname='first.dlis')
         p.write(1, route='none' if route == 'inline' else route, data_arrays=arrs, fname='second.dlis', in_chunk=2)
         progs.append(p.build())
+    # the dtype a channel is written with: derived from the data of each write unless the user pinned one (before the
+    # first write, between two writes -- also to the very dtype derived before -- or cleared it again)
+    dts = ['float32', 'float64', 'int16', 'uint8', 'int32']
+    combos = [(d1, pin, d2) for d1 in dts for pin in ('same', 'other', 'clear', 'none') for d2 in dts if d2 != d1]
+    for i, (d1, pin, d2) in enumerate(combos if tier == 'thorough' else rng.sample(combos, 24)):
+        p = Prog(f'C03-recast-{i}', {'kind': 'recast', 'd1': d1, 'pin': pin, 'd2': d2})
+        lf, _ = base_lf(p)
+        rows = 5
+        mk = lambda dt, k: ((np.arange(rows * 2).reshape(rows, 2) * 7 + k) % 100).astype(dt)
+        ch = p.channel(lf, 'CH', cast=('int32' if pin == 'clear' else None))
+        ix = p.channel(lf, 'IX')
+        p.frame(lf, 'FR', [ix, ch])
+        ixa = p.array(np.arange(rows, dtype='float64'))
+        p.write(1, route='dict', data_arrays={ix: ixa, ch: p.array(mk(d1, 1))}, fname='first.dlis')
+        if pin == 'same':
+            p.set_cast(ch, d1)
+        elif pin == 'other':
+            p.set_cast(ch, [d for d in dts if d not in (d1, d2)][i % 3])
+        elif pin == 'clear':
+            p.set_cast(ch, None)
+        p.write(1, route=['dict', 'struct'][i % 2], data_arrays={ix: ixa, ch: p.array(mk(d2, 2))}, fname='second.dlis')
+        if i % 3 == 0:
+            p.set_cast(ch, None)
+            p.write(1, route='dict', data_arrays={ix: ixa, ch: p.array(mk(d1, 3))}, fname='third.dlis')
+        progs.append(p.build())
     return progs
 
 
@@ -250,6 +275,38 @@ def gen_C04(tier, seed):
             p.add(lf, cls, 'OBJ2', **{attr: value_for(CLASSES[cls][2][attr][2], rng, {}, mult=2) or L()})
         p.write(1, valid=False, either=True)
         progs.append(p.build())
+    # list values that change after the assignment: extended in place, re-assigned with another length, between two writes
+    for k in range(6 if tier == 'quick' else 40):
+        p = Prog(f'C04-grow-{k}', {'kind': 'grow'})
+        lf, _ = base_lf(p)
+        c = p.channel(lf, 'CH', data=np.arange(3, dtype='float64'))
+        c2 = p.channel(lf, 'CH2', data=np.arange(3, dtype='float64'))
+        c3 = p.channel(lf, 'CH3', data=np.arange(3, dtype='float64'))
+        p.frame(lf, 'FR', [c, c2, c3])
+        n0 = [1, 2, 3][k % 3]
+        texts = [S(f'line {j}') for j in range(n0)]
+        com = p.add(lf, 'comment', 'COM', text=L(*texts))
+        nums = [F(j + 0.5) for j in range(n0)]
+        ax = p.add(lf, 'axis', 'AX', coordinates=L(*nums))
+        tool = p.add(lf, 'tool', 'TOOL', channels=L(*[R(x) for x in [c, c2][:min(n0, 2)]]))
+        org = p.add(lf, 'origin', 'O2', programs=L(*texts), file_set_number=I(1))
+        more_n = [1, 2, 127][(k // 3) % 3]
+        if k % 2 == 1:
+            p.write(1, fname='first.dlis')
+        more_t = [S(f'more {j}') for j in range(more_n)]
+        more_f = [F(100.0 + j) for j in range(more_n)]
+        if k % 4 < 2:
+            p.extend(com, 'text', texts, more_t)
+            p.extend(ax, 'coordinates', nums, more_f)
+            p.extend(tool, 'channels', [R(x) for x in [c, c2][:min(n0, 2)]], [R(c3)])
+            p.extend(org, 'programs', texts, more_t)
+        else:
+            p.set(com, 'text', L(*(texts + more_t)))
+            p.set(ax, 'coordinates', L(*(nums + more_f)))
+            p.set(tool, 'channels', L(R(c3)))
+            p.set(org, 'programs', L(*more_t[:1]))
+        p.write(1, fname='second.dlis')
+        progs.append(p.build())
     progs += attr_programs('C04')
     return progs
 
@@ -369,6 +426,36 @@ def gen_C05(tier, seed):
         p.frame(lf, 'FR', [c])
         p.write(1)
         progs.append(p.build())
+    # the kind of a value changes after a file was written (text, integer, float, date-time, reference): the second file
+    # carries the code of the value it holds, not of the one written before
+    kinds = {'text': lambda j: L(S(f'txt{j}'), S('b')), 'int': lambda j: L(I(5 + j), I(-7)), 'float': lambda j: L(F(1.5 + j), F(2.25))}
+    switches = [('par', a, b) for a in kinds for b in kinds if a != b] + [('ax', a, b) for a in kinds for b in kinds if a != b]
+    switches += [(w, a, b) for w in ('parln', 'chln') for (a, b) in (('text', 'ref'), ('ref', 'text'))]
+    switches += [(w, a, b) for w in ('zone', 'msg') for (a, b) in (('float', 'dt'), ('dt', 'float'))]
+    for i, (what, a, b) in enumerate(switches):
+        p = Prog(f'C05-kindswitch-{i}', {'kind': 'kindswitch', 'what': what, 'from': a, 'to': b})
+        lf, o = base_lf(p)
+        ln = p.add(lf, 'long_name', 'LN', quantity=S('speed'))
+        lnv = {'text': S('a text long name'), 'ref': R(ln)}
+        tv = {'float': lambda j: F(10.5 + j), 'dt': lambda j: DT(2001 + j, 2, 3, 4, 5, 6)}
+        c = p.channel(lf, 'CH', data=np.arange(3, dtype='float64'), long_name=lnv[a] if what == 'chln' else None)
+        p.frame(lf, 'FR', [c])
+        if what == 'par':
+            obj, attr, v1, v2 = p.add(lf, 'parameter', 'PAR', values=L(kinds[a](0)['v'][0])), 'values', None, L(kinds[b](2)['v'][0])
+        elif what == 'ax':
+            obj, attr, v1, v2 = p.add(lf, 'axis', 'AX', coordinates=kinds[a](1)), 'coordinates', None, kinds[b](3)
+        elif what == 'parln':
+            obj, attr, v2 = p.add(lf, 'parameter', 'PAR2', long_name=lnv[a]), 'long_name', lnv[b]
+        elif what == 'chln':
+            obj, attr, v2 = c, 'long_name', lnv[b]
+        elif what == 'zone':
+            obj, attr, v2 = p.add(lf, 'zone', 'ZN', maximum=tv[a](0)), 'maximum', tv[b](1)
+        else:
+            obj, attr, v2 = p.add(lf, 'message', 'MSG', time=tv[a](0)), 'time', tv[b](1)
+        p.write(1, fname='first.dlis')
+        p.set(obj, attr, v2)
+        p.write(1, fname='second.dlis')
+        progs.append(p.build())
     return progs
 
 
@@ -427,6 +514,41 @@ def gen_C07(tier, seed):
         lf, o = base_lf(p)
         c = p.channel(lf, 'CH', data=np.arange(3, dtype='float64'), origin_reference=7 + i)
         p.frame(lf, 'FR', [c])
+        p.write(1, valid=False, either=True)
+        progs.append(p.build())
+    # a reference to an object of another logical file cannot resolve within the logical file: rejected, or not written so
+    foreign = [('frame', 'channels', 'channel'), ('tool', 'channels', 'channel'), ('parameter', 'zones', 'zone'),
+               ('channel', 'axis', 'axis'), ('calibration', 'calibrated_channels', 'channel'), ('group', 'object_list', 'zone'),
+               ('process', 'input_channels', 'channel'), ('splice', 'output_channel', 'channel'), ('path', 'frame_type', 'frame'),
+               ('tool', 'parts', 'equipment'), ('computation', 'source', 'tool'), ('calibration', 'coefficients', 'calibration_coefficient')]
+    for i, (cls, attr, tcls) in enumerate(foreign):
+        p = Prog(f'C07-foreign-{i}', {'kind': 'foreign', 'fringe': True, 'cls': cls, 'attr': attr})
+        p.file(1)
+        lfs = []
+        for n in (1, 2):
+            lf = p.lf(1, lf=n, fh_id=f'LF{n}', fh_seq=n)
+            sn = f'SET-{n}'
+            p.origin(lf, name=f'O{n}', fsn=n, set_name=sn)
+            c = p.channel(lf, f'CH{n}', data=np.arange(3, dtype='float64'), set_name=sn)
+            fr = p.frame(lf, f'FR{n}', [c], set_name=sn)
+            lfs.append((lf, sn, c, fr))
+        (l1, s1, c1, f1), (l2, s2, c2, f2) = lfs
+        if tcls == 'channel':
+            tgt = c2
+        elif tcls == 'frame':
+            tgt = f2
+        else:
+            tgt = p.add(l2, tcls, 'TARGET', set_name=s2)
+        single = attr in ('output_channel', 'frame_type', 'source')
+        val = R(tgt) if single else L(R(tgt))
+        if cls == 'frame':
+            extra = p.channel(l1, 'EXTRA', data=np.arange(3, dtype='float64'), set_name=s1)
+            p.frame(l1, 'FOREIGN', [extra, tgt], set_name=s1)
+        elif cls == 'channel':
+            ch = p.channel(l1, 'FOREIGN', data=np.arange(3, dtype='float64'), set_name=s1, **{attr: val})
+            p.frame(l1, 'FRX', [ch], set_name=s1)
+        else:
+            p.add(l1, cls, 'FOREIGN', set_name=s1, **{attr: val})
         p.write(1, valid=False, either=True)
         progs.append(p.build())
     return progs
@@ -726,6 +848,26 @@ def gen_C18(tier, seed):
         p.meta['setmode'] = setmode
         p.meta['nlf'] = nlf
         p.meta['inline'] = inline
+        progs.append(p.build())
+    # one channel set per frame, the same channel names in each (distinguished by their origins): every frame has its own rows
+    for i in range(6 if tier == 'quick' else 40):
+        p = Prog(f'C18-framesets-{i}', {'kind': 'framesets'})
+        p.file(1)
+        nlf = 1 + i % 2
+        for k in range(nlf):
+            lf = p.lf(1, lf=k + 1, fh_id=f'LF-{k}', fh_seq=k + 1)
+            nfr = 2 + (i // 2) % 2
+            for f in range(nfr):
+                p.origin(lf, name=f'ORIGIN-{k}-{f}', fsn=f + 1, set_name=f'OSET-{k}', origin_reference=10 * (k + 1) + f)
+            order = list(range(nfr)) if i % 3 else list(range(nfr))[::-1]
+            for f in order:
+                rows = [6, 4, 9][(f + i) % 3]
+                sn = f'FRAMESET-{k}-{f}'
+                ref = 10 * (k + 1) + f
+                d = p.channel(lf, 'DEPTH', data=np.arange(rows, dtype='float64') + 100 * (f + 1) + 1000 * k, set_name=sn, origin_reference=ref)
+                r = p.channel(lf, 'RPM', data=rand_array(rng, 'float32', rows), set_name=sn, origin_reference=ref)
+                p.frame(lf, f'FRAME-{f}', [d, r], set_name=sn, origin_reference=ref)
+        p.write(1, in_chunk=[None, 2][i % 2])
         progs.append(p.build())
     return progs
 
